@@ -100,6 +100,13 @@ def run(ctx):
                               {"config": sc.label, "log": [v[:3] for v in sc.b.log.violations[:3]]})
                 sc.close()
                 continue
+            # every fourth project is read through a second driver that shares the uploaded tag list (docs/getting_started.rst)
+            if pi % 4 == 2:
+                res.ev()
+                if sc.use_second_driver():
+                    res.count("second-driver-projects")
+                else:
+                    res.violation("second-driver-open-failed", f"a second LogixDriver(init_tags=False) sharing the tag list failed to open ({sc.label})", {"config": sc.label})
             ncalls = 20 if quick else 40
             for ci in range(ncalls):
                 k = rng.choice([1, 1, 1, 2, 3, 5, 8, 12, 25])
